@@ -22,7 +22,7 @@ def spec(case, out):
     if case.exact is not None and case.exact[0] in ("mag", "mag2", "nintd", "bool", "list", "v0", "tuple", "tofloat") or case.fn == "from_float_parts":
         return ctxcases.spec_check(case, out)
     if case.fn in cxcases.GENS and case.exact is not None and case.exact[0] in (
-            "cv", "cv0", "cv1", "cvpow", "cmod", "cspecial", "csqrt", "ints", "contain1", "contain2", "ccontain", "ivcmp", "elemcontain", "trigcontain", "compose") or \
+            "cv", "cv0", "cv1", "cvpow", "cmod", "cspecial", "csqrt", "ints", "contain1", "contain2", "ccontain", "ivcmp", "elemcontain", "trigcontain", "compose", "atan2plan") or \
             (case.fn in ("mpc_abs",) and case.exact is not None):
         return cxcases.spec_check(case, out)
     return mpfcases.spec_check(case, out)
